@@ -558,9 +558,8 @@ def solo_answers(world_args, requests: List[bytes], verified: bool, with_uuid: b
 # --------------------------------------------------------------------------- oracle
 
 
-def judge(ctx: Ctx, obs: Dict[str, Any], meta: Dict[str, Any], replay: Dict[str, Any], world_args, verified, with_uuid,
-          check_order: bool):
-    """The property on the observed behaviour. One finding per stream, the gravest first."""
+def problems_of(obs: Dict[str, Any], meta: Dict[str, Any], world_args, verified, with_uuid, check_order: bool):
+    """The property on the observed behaviour: list of (signature, description), gravest first."""
     problems: List[Tuple[str, str]] = []
     ref, resps = obs["ref"], obs["responses"]
     for where, cls in obs["escaped"]:
@@ -583,14 +582,65 @@ def judge(ctx: Ctx, obs: Dict[str, Any], meta: Dict[str, Any], replay: Dict[str,
         problems.append(("C19:other-connection-affected", "a bystander connection was written to, closed, unregistered or stopped answering"))
     if not meta.get("effectful") and obs["digest_changed"]:
         problems.append(("C19:accessory-state-changed", f"stream without legitimate writes changed {obs['digest_changed']}"))
-    if check_order and not problems and not obs["closed"] and len(resps) == len(meta.get("requests", [])) >= 2:
+    if check_order and not problems and not obs["closed"] and len(resps) == len(meta.get("requests", [])) >= 2 \
+            and all(_self_delimiting(r) for r in meta["requests"]):
         solo = solo_answers(world_args, meta["requests"], verified, with_uuid)
         if solo is not None:
             got = [(r.status, r.body) for r in resps]
             if got != solo:
                 problems.append(("C19:responses-out-of-order", f"pipelined answers {[s for s, _ in got]} differ from the answers to the same requests sent alone {[s for s, _ in solo]}"))
-    if problems:
-        ctx.fail(problems[0][0], "; ".join(d for _, d in problems) + f" [{replay.get('label', meta.get('kinds'))}]", replay)
+    return problems
+
+
+def _self_delimiting(req: bytes) -> bool:
+    """The generated request is exactly one complete message (its framing headers match its bytes), so
+    that the pipelined stream is cut where the generator cut it and solo answers are comparable."""
+    r = reference_requests(req)
+    return r["complete"] == 1 and r["error"] is None and (r["at_boundary"] or r["must_close"])
+
+
+def minimise(world_args, verified, with_uuid, chunks, meta, signature):
+    """Shrink a failing stream: one chunk instead of many, then as few of its requests as possible."""
+    from common import delta_min
+
+    def fails(chs, reqs) -> bool:
+        w = base.World(*world_args)
+        try:
+            o = run_stream(w, chs, verified, with_uuid, record=False)
+        finally:
+            w.close()
+        m = {"effectful": meta.get("effectful"), "requests": reqs}
+        return any(sig == signature for sig, _ in problems_of(o, m, world_args, verified, with_uuid, signature.endswith("out-of-order")))
+
+    stream = b"".join(chunks)
+    reqs = list(meta.get("requests", []))
+    best_chunks, best_reqs = chunks, reqs
+    if len(chunks) > 1 and fails([stream], reqs):
+        best_chunks = [stream]
+    if len(reqs) >= 2 and b"".join(reqs) == stream and best_chunks == [stream]:
+        small = delta_min(reqs, lambda cand: fails([b"".join(cand)], cand), max_steps=24)
+        if len(small) < len(reqs):
+            best_chunks, best_reqs = [b"".join(small)], small
+    return best_chunks, best_reqs
+
+
+def judge(ctx: Ctx, obs: Dict[str, Any], meta: Dict[str, Any], replay: Dict[str, Any], world_args, verified, with_uuid,
+          check_order: bool, shrink: bool = True):
+    """One finding per stream (the gravest aspect names the signature), minimised before it is recorded."""
+    problems = problems_of(obs, meta, world_args, verified, with_uuid, check_order)
+    if problems and not any(f.signature == problems[0][0] for f in ctx.failures):
+        sig = problems[0][0]
+        desc = "; ".join(d for _, d in problems)
+        if shrink:
+            try:
+                chunks = [bytes.fromhex(c) for c in replay["chunks"]]
+                mc, mr = minimise(world_args, verified, with_uuid, chunks, meta, sig)
+                if mc != chunks:
+                    replay = dict(replay, chunks=[hx(c) for c in mc], requests=[hx(r) for r in mr],
+                                  label=replay.get("label", "") + " (minimised)")
+            except Exception as ex:  # noqa: BLE001  (shrinking is best effort)
+                log(f"[C19] minimisation failed: {ex!r}")
+        ctx.fail(sig, desc + f" [{replay.get('label', meta.get('kinds'))}]", replay)
     return problems
 
 
@@ -687,9 +737,9 @@ def run(ctx: Ctx, model: bool = True, n: Optional[int] = None):
         "chunking) fed to a fresh real HAPServerProtocol in a fresh world, unverified or as plaintext in a verified "
         "session. Non-trivial = the pump reached a dispatch, a protocol error or a close; distinct by (mode, bytes, chunking)."
     )
-    n = ctx.n(500, 12000) if n is None else n
+    n = ctx.n(2000, 30000) if n is None else n
     lines, metas, obss = [], [], []
-    order_budget = ctx.n(25, 600)
+    order_budget = ctx.n(60, 1500)
     for (wa, verified, with_uuid, chunks, meta) in cases(ctx, n):
         world = base.World(*wa)
         try:
@@ -756,7 +806,7 @@ def replay(ctx: Ctx, r):
         world.close()
     meta = {"kinds": [r.get("label", "replay")], "effectful": r.get("effectful", False),
             "requests": [bytes.fromhex(x) for x in r.get("requests", [])]}
-    judge(ctx, obs, meta, r, wa, r["verified"], r["with_uuid"], check_order=True)
+    judge(ctx, obs, meta, r, wa, r["verified"], r["with_uuid"], check_order=True, shrink=False)
     print("mode:", "verified session (plaintext)" if r["verified"] else "unverified", "world:", wa)
     for c in chunks[:12]:
         print("  data_received", c[:120])
